@@ -4,6 +4,7 @@
   store what `ElasticConstants(Cij=ec.Cij)` stores, and `transform` is `rot` followed by the clean-up and the setter.
 -/
 import Proofs.C11_Lemmas
+import Proofs.C11_Source
 
 namespace Atomman.C11
 open Atomman.Gen
@@ -191,7 +192,8 @@ theorem axesCheck_of_orthonormal (axes : M33 K) (norms : Fin 3 → K) (hn : ∀ 
     have := congrFun (congrFun ho i) j
     simpa [mmul, mtr, mone] using this
   have tol0 : (0 : K) ≤ axesCheckTol := by unfold axesCheckTol; positivity
-  simp only [axesCheck, hn, div_one]
+  rw [axesCheck, gen_axesCheck_eq_model]
+  simp only [axesCheckRef, hn, div_one]
   rw [if_neg, if_neg]
   · rw [not_not, List.all_eq_true]
     intro j _
